@@ -41,6 +41,7 @@ ITEMS = location_types() + [
          canaries=['C17:line_starts_are_exactly_the_offsets_after_each_newline']),
     dict(src=SN, path='struct LineCrop'),
     dict(src=SN, path='fn crop_line_by_cols', props=P,
+         bounded=dict(harness='bounded/crop_line_by_cols.rs', items=[('src/de/snippet.rs', 'struct LineCrop'), ('src/de/snippet.rs', 'fn crop_line_by_cols'), ('src/de/snippet.rs', 'fn col_to_byte_offset_in_line')]),
          rewrites=[STRLEN,
                    (r'line\.chars\(\)\.count\(\)', 'str_chars_count(line)', 1, 'R8'),
                    (r'line\.to_owned\(\)', 'str_to_owned(line)', None, 'R8'),
